@@ -98,12 +98,13 @@ int main(int argc, char **argv) {
                 /* the emitted phrase must be the reference phrase (a dropped or truncated word shows here) */
                 { char refph[2048]; size_t rn = ref_phrase(&s, li, 0, refph, 0); if (!bad && (rn != n || memcmp(refph, b.out, n))) bad |= 16; }
                 if (exact && !bad) { size_t got = form == 0 ? n : 0; if (form == 1) { char raw[2048]; got = ref_phrase(&s, li, 0, raw, 1); } if (got != expect_len) bad |= 32; }
+                if (!bad) { polyseed_str again; E.fail_at = E.alloc_seq; size_t n2 = polyseed_encode(d, polyseed_get_lang(li), 0, again); E.fail_at = -1; r->calls++; if (n2 != n || memcmp(again, b.out, n + 1)) bad |= 64; }
                 polyseed_data *e = NULL; int st = (bad & 3) ? -1 : polyseed_decode_explicit(b.out, 0, polyseed_get_lang(li), &e); r->calls++;
                 uint8_t s0[32], s1[32]; polyseed_store(d, s0); if (st == POLYSEED_OK) { polyseed_store(e, s1); polyseed_free(e); if (memcmp(s0, s1, 32)) bad |= 8; } else bad |= 4;
                 polyseed_free(d);
                 r->cases++;
                 r->digest ^= mix64(li * 8 + mask, n);
-                if (bad) { char key[100], rep[64]; snprintf(key, sizeof key, "c17:witness:%s", RL[li].code); sprintf(rep, "case %d %u", li, mask); res_viol(r, key, rep, "%s %s phrase (encode returned %zu bytes): flags %d (1=overrun 2=length 4=decode failed 8=different seed 16=not the reference phrase 32=bound not attained)", exact ? "exactly extremal" : "near-extremal", RL[li].name_en, n, bad); }
+                if (bad) { char key[100], rep[64]; snprintf(key, sizeof key, "c17:witness:%s", RL[li].code); sprintf(rep, "case %d %u", li, mask); res_viol(r, key, rep, "%s %s phrase (encode returned %zu bytes): flags %d (1=overrun 2=length 4=decode failed 8=different seed 16=not the reference phrase 32=bound not attained 64=differs under a refusing allocator)", exact ? "exactly extremal" : "near-extremal", RL[li].name_en, n, bad); }
                 else { r->validated++; r->cls[1]++; if (r->nsample < 3 && exact && (li == 1 || li == 2) && mask == 7) res_sample(r, "exact extremal witness %s mask=%u form=%s: computed bound %zu bytes attained, encode returned %zu bytes, decodes to the same seed", RL[li].code, mask, form ? "internal" : "output", expect_len, n); }
             }
         }
